@@ -25,6 +25,21 @@ Definition sign_lit_eqb (a : sign_lit) (s : sign) : bool :=
 Definition sign_of_lit (a : sign_lit) (dflt : sign) : sign :=
   match a with SLit t => t | SUnknown => dflt end.
 
+(** `s == Sign::T` ([eq] = true) or `s != Sign::T` *)
+Definition sign_test (eq : bool) (s t : sign) : bool :=
+  if eq then sign_eqb s t else negb (sign_eqb s t).
+
+(** a comparison operator applied to the `Ordering` of its two operands (`a < b` on big numbers
+    is `a.cmp(&b) == Less`, ...) *)
+Definition is_lt (c : comparison) : bool := match c with Lt => true | _ => false end.
+Definition is_le (c : comparison) : bool := match c with Gt => false | _ => true end.
+Definition is_eq (c : comparison) : bool := match c with Eq => true | _ => false end.
+Definition cmp_ord (op : cmpop) (c : comparison) : bool :=
+  match op with
+  | Clt => is_lt c | Cle => is_le c | Ceq => is_eq c
+  | Cne => negb (is_eq c) | Cge => negb (is_lt c) | Cgt => negb (is_le c)
+  end.
+
 (** `Ordering` literals *)
 Definition comparison_eqb (a b : comparison) : bool :=
   match a, b with Eq, Eq | Lt, Lt | Gt, Gt => true | _, _ => false end.
